@@ -48,6 +48,30 @@ def run(ctx):
             accepted += 1
     ctx.cov["originals_accepted"] = accepted
     good = [(s, b) for (s, b), c in zip(chosen, p0) if c.startswith("ok ")]
+    # 0a. files whose stored checksum has a special byte (0x00 / 0xFF) in each of its four positions: the last body
+    #     byte of a valid file is varied (it lies in a data section; the file stays a module or is refused for another
+    #     reason - only accepted variants are kept) until the CRC has that byte.  A comparison of the checksum that stops at
+    #     a zero byte, or is made in a narrower or signed type, shows only on such files.
+    special = []
+    if good:
+        s0, b0 = good[0]
+        want = [(pos, val) for pos in range(4) for val in (0x00, 0xFF)]
+        cand = {}
+        for k in range(min(len(b0) - H, 3)):
+            for x in range(256):
+                d = bytearray(b0); d[len(b0) - 1 - k] = x
+                d = crcutil.fix_checksum(bytes(d), P, C)
+                cs = d[H - 4:H]
+                for pos, val in want:
+                    if cs[pos] == val and (pos, val) not in cand:
+                        cand[(pos, val)] = d
+        cl = list(cand.items())
+        okl = common.batch_robust(probe, ["nvm.load " + d.hex() for _, d in cl], env=env)
+        for ((pos, val), d), c in zip(cl, okl):
+            if c.startswith("ok "):
+                special.append(("%s[crc byte %d = %02x]" % (s0, pos, val), d))
+        ctx.cov["special_checksum_files"] = len(special)
+        good = good + special
 
     # 0b. nvm_crc32 itself, model vs implementation: all 256 single bytes, all lengths 0..40, file bodies
     clines = ["crc " + common.hexs(bytes([x])) for x in range(256)]
